@@ -25,7 +25,7 @@ def _lines(obj):
 
 def _mode_kw(c, pair=False, triple=False):
     key = {"thr": "threshold", "rr": "recurrence_rate", "lrr": "local_recurrence_rate",
-           "ans": "adaptive_neighborhood_size"}[c["mode"]]
+           "ans": "adaptive_neighborhood_size", "tstd": "threshold_std"}[c["mode"]]
     if c["mode"] == "ans":
         val = int(c["pn"])
     else:
